@@ -4,12 +4,12 @@ import vlib
 import tm_util as T
 
 MANIFEST = {
-    "text": "Coq theorems by structural induction over scope trees of any depth (C07_requests, C07_sees_xid, C07_results: "
+    "text": "Coq theorems by structural induction over scope trees of any depth (C07_trace / C07_requests / C07_sees_xid: "
             "the requests sent, the xid every callback sees and the returned classes of the model of WithGlobalTx equal an "
             "independent reference semantics of the six propagation modes; C07_outer_intact: after any inner scope, under any "
-            "coordinator behaviour, the enclosing scope's xid/role/name are those before it; C07_callee_never_ends; "
-            "C07_carrier_* for the grpc/gin/dubbo xid transport), proved for every code shape satisfying shape_ok and "
-            "instantiated at the propagation switch, role switch and save/restore REGENERATED from "
+            "coordinator behaviour, the enclosing scope's xid/role/name are those before it; C07_never_ends_joined; "
+            "C07_carrier_single / _roundtrip / _case_spellings for the grpc/gin/dubbo xid transport), proved for every code shape "
+            "satisfying shape_ok and instantiated at the propagation switch, role switch and save/restore REGENERATED from "
             "pkg/tm/transaction_executor.go on every run; tied to the code by running the real tm.WithGlobalTx over "
             "enumerated and random scope trees (shared and fresh contexts) and the real interceptors/middleware/filter, "
             "comparing traces with the model evaluated in Coq and with the reference semantics.",
